@@ -774,6 +774,14 @@ fn run_node_record(seq: &[(u8, usize)], inputs: &[(String, Vec<u8>)]) -> Option<
                 if p.addr() == single::contact_addr(i, false) {
                     let mut r = crate::sim::peers::Responder::new(single::contact_addr(i, false), single::contact_id(i), universe.clone());
                     r.duplicate_replies = true;
+                    if seq[0].1 % 4 == 0 {
+                        // well-formed answers that list one silent address under two different ids
+                        let mute: std::net::SocketAddr = "10.0.1.250:6881".parse().unwrap();
+                        let (mut a, mut b) = (single::contact_id(40), single::contact_id(41));
+                        a[0] = 0x15;
+                        b[0] = 0x16;
+                        r.node_list = crate::sim::peers::NodeList::ClosestPlus(vec![(a, mute), (b, mute)]);
+                    }
                     *p = Box::new(r);
                 }
             }
